@@ -40,6 +40,8 @@ def gen_assembly(rng, tpf_ok):
             rows.insert(0, ["F", "q", 1, 2, 1, []])
         scs.append([n, rows])
     header = ["hdr line %d" % x if rng.random() < 0.7 else "DESCRIPTION: x\ty " + gen_name(rng) for x in range(rng.choice([0, 0, 1, 2]))]
+    # header text may end in blanks (they are part of the text: only the line terminator is not)
+    header = [h + rng.choice(["", "", " ", "  ", "\t", " \u00a0"]) for h in header]
     return {"header": header, "scaffolds": scs}
 
 
